@@ -27,6 +27,8 @@ def configs(tier):
         # the system, its parameters and its batch are built inside the evaluated function with the user's (non-alphabetical) key order:
         # eager evaluation sees that order, jit / value_and_grad see pytree-sorted dictionaries
         out.append(dict(what="loss", kind=kind, extra="user-order", B=B))
+        # observations for one unknown; the same loss object is also evaluated on the batch WITHOUT observations, before and after
+        out.append(dict(what="loss", kind=kind, extra="obs", B=B))
     for kind in ("statio", "nonstatio"):
         out.append(dict(what="loss", kind=kind, extra="facet-dict", B=B))      # boundary conditions given per facet (dictionaries)
     n = 4 if tier == "quick" else 6
@@ -119,12 +121,18 @@ def run(cfg, R):
             params = type(params)(nn_params={k: params.nn_params[k] for k in ks}, eq_params={k: params.eq_params[k] for k in ("theta", "kappa")})
         snap = lambda l: jax.tree_util.tree_leaves(eqx.filter(l, eqx.is_array))          # array leaves of the loss object
         lb = snap(loss)
+        if extra == "obs":
+            noobs = eqx.tree_at(lambda b: b.obs_batch_dict, batch, None)
+            r0 = loss.evaluate(params, noobs)
         r1 = loss.evaluate(params, batch)
         mid = (jax.tree_util.tree_map(lambda x: x, params), jax.tree_util.tree_map(lambda x: x, batch))
         r2 = loss.evaluate(params, batch)
         rj = eqx.filter_jit(lambda l, p, b: l.evaluate(p, b))(loss, params, batch)
         (v, aux), _g = jax.value_and_grad(lambda p: loss.evaluate(p, batch), has_aux=True)(params)
         after = (jax.tree_util.tree_map(lambda x: x, params), jax.tree_util.tree_map(lambda x: x, batch), snap(loss))
+        if extra == "obs":
+            r3 = loss.evaluate(params, noobs)
+            return r1, r2, rj, (v, aux), mid, after, lb, (r0, r3)
         return r1, r2, rj, (v, aux), mid, after, lb
 
     tr = R.trace(name, f, (loss, params, batch), key=key + ":raises", trace_only_is_violation=True)
@@ -132,8 +140,10 @@ def run(cfg, R):
 
     def goals(A, O):
         loss_, p, b_ = A
-        r1, r2, rj, rv, mid, after, lb = O
+        r1, r2, rj, rv, mid, after, lb = O[:7]
         G = []
+        if len(O) > 7:
+            G += same_tree("a repeated evaluation on the batch without observations returns the same result after the loss was evaluated with observations", O[7][0], O[7][1])
         G += same_tree("a repeated evaluation on the same arguments returns the same result", r1, r2)
         G += same_tree("jit(evaluate) returns the same result", r1, rj)
         G += same_tree("the primal output of value_and_grad(evaluate) is the same result", r1, rv)
@@ -145,7 +155,7 @@ def run(cfg, R):
         return G
 
     def twins(A, O):
-        r1, r2, rj, rv, mid, after, lb = O
+        r1, r2, rj, rv, mid, after, lb = O[:7]
         t = flat_terms(r1)[0]
         return [("the total loss is identically 0", eq(t, const(0, "Real")))]
 
@@ -218,6 +228,9 @@ def build_system(sk, B, extra, keys=("a", "b"), params=None):
         batch = PDENonStatioBatch(times_x_inside_batch=jnp.arange(1, 2 * B + 1).reshape(B, 2) * 0.2, times_x_border_batch=None)
     if extra == "param":
         batch = eqx.tree_at(lambda b: b.param_batch_dict, batch, {"kappa": jnp.arange(1, B + 1).reshape(B, 1) * 0.3}, is_leaf=lambda x: x is None)
+    if extra == "obs":
+        obs = {ka_: {"pinn_in": jnp.arange(1, B * d_in + 1).reshape(B, d_in) * 0.125, "val": jnp.arange(1, B + 1).reshape(B, 1) * 0.25, "eq_params": {}}, kb_: None}
+        batch = eqx.tree_at(lambda b: b.obs_batch_dict, batch, obs, is_leaf=lambda x: x is None)
     return loss, params, batch
 
 
